@@ -363,3 +363,10 @@ def run(rep: Report, tier: str):
     check_no_lost_call(repo, rep, sums)
     check_refuse(repo, rep, sums)
     check_body_chain(repo, rep)
+
+    # interpreted last: the rules above stand on their own if the decompiler cannot be interpreted over an input
+    from ..vmworlds import C03_KEYS, report as _vm_report
+
+    rep.rule("C03.trace-worlds", "every call the reference machine makes and every global it resolves is in the decompiled program", 1)
+    _vm_report(repo, rep, "C03.trace-worlds", tier, C03_KEYS)
+
